@@ -17,7 +17,8 @@ A *site* is an occurrence of
   * `for PAT in EXPR` where EXPR mentions a hashy name,
   * `RECV.m(` for m in ITER_METHODS where the receiver chain mentions a hashy name,
   * `.extend(ARG)`, `.chain(ARG)`, `.zip(ARG)`, `from_iter(ARG)` where ARG mentions a hashy name,
-  * a formatting macro with a `?` (Debug) placeholder and a hashy name among its arguments.
+  * a formatting macro with a `?` (Debug) placeholder and a hashy name among its arguments, or bare `self` inside an
+    impl of a struct that has a hash-typed field.
 Each site is keyed line-independently by (file, enclosing fn, kind, normalised header text) and carries a digest of
 the whole enclosing statement (for a `for` loop: header and body; otherwise the statement up to its `;`), so that an
 edit of the consumer invalidates the audited classification (Model/OrderSites.v).
@@ -354,6 +355,13 @@ def scan(repo):
             if pc > 0 and base_ty_re.search(s[m.end():pc]):
                 tuple_structs.add(m.group(1))
     hashy_types |= tuple_structs
+    # structs with a hashy named field: `{:?}` of `self` inside their impls prints the container in iteration order
+    hashy_structs = set(tuple_structs)
+    for rel, (raw, s) in files.items():
+        for m in re.finditer(r'\bstruct\s+(%s)\s*(?:<[^;{(]*>)?\s*(?:where[^{;]*)?\{' % IDENT, s):
+            e = match_close(s, m.end() - 1)
+            if e > 0 and base_ty_re.search(s[m.end():e]):
+                hashy_structs.add(m.group(1))
     ty_re = re.compile(r'\b(%s)\b' % '|'.join(sorted(hashy_types)))
     # ---- per file structure
     info = {}
@@ -449,6 +457,7 @@ def scan(repo):
             why = []
             if nm in global_names: why += sorted(global_names[nm])
             if nm.endswith('()'): why.append(hashy_fns.get(nm[:-2], ''))
+            if nm == 'self': why.append('Debug of a struct with a hash-typed field')
             for f in scopes:
                 r = local_names.get((rel, f.start), {}).get(nm)
                 if r and r not in why: why.append(r)
@@ -553,6 +562,11 @@ def scan(repo):
                 rawargs = raw[po + 1:pc]
                 if not re.search(r'\{[^{}]*:#?\??[^{}]*\?\}', rawargs): continue
                 names = hashy_in(rel, m.start(), s[po + 1:pc])
+                if re.search(r'\bself\b(?!\s*\.)', s[po + 1:pc]):
+                    imp = None
+                    for (b, e, nm) in info[rel][1]:
+                        if b <= m.start() <= e and (imp is None or b > imp[0]): imp = (b, e, nm)
+                    if imp and imp[2] in hashy_structs: names = names + ['self']
                 if not names: continue
                 f = enclosing_fn(rel, m.start())
                 st, en = stmt_extent(s, m.start(), f)
